@@ -814,6 +814,7 @@ def run(tier, only=None):
     j13(rep)
     j14(rep)
     j15(rep)
+    j16(rep)
     from . import variant_dispatch
     variant_dispatch.report(rep, "J12", common.extract("java/genjava.c", all_trees=True), "genjava.c", "gj0Gen0", 35)
     from . import variadic
